@@ -292,6 +292,13 @@ def aggregateWith (inp : Input) (armsL : Nat → Nat → Arms) (armsR : Nat → 
 
 def aggregate (inp : Input) (y x dsp : Nat) : Val := aggregateWith inp inp.crossL inp.crossR y x dsp
 
+/-- `cv.attrs["cmax"]` after the step: `cmax * (2 * cbca_distance - 1) ^ 2`.  An arm is shorter than `cbca_distance`
+    (`armStopDistance`), so for `cbca_distance >= 2` a combined support region has at most `(2 * (dist - 1) + 1) ^ 2` pixels: the
+    attribute bounds the SUM over a region.  It is metadata of the cost volume, not a clause of C11 (the aggregated cost is the
+    mean); the model carries the formula so that the source's update is tied to it (`cmaxUpdate_generated_eq`). -/
+def cmaxAfter (cmax : Rat) (dist : Nat) : Rat :=
+  cmax * (((2 * (dist : Int) - 1) * (2 * (dist : Int) - 1) : Int) : Rat)
+
 
 /-! ## Part B — the specification (written from the property statement) -/
 
